@@ -1,6 +1,7 @@
 """C18 — provisional nodes resolve at execution time; generated tasks run in the same build."""
 from __future__ import annotations
 
+import os
 from concurrent.futures import ThreadPoolExecutor
 
 from impl import builder, prov_api as pa
@@ -471,6 +472,71 @@ def evaluate(ctx, hs, all_records):
                                  {"history": h, "step": i, "what": what, "impl": iv, "model": mv, "layer": "prov-e2e"})
 
 
+def inproc_stream(ctx):
+    """The same user task objects passed to `pytask.build(tasks=[...])` several times in one process while the matching files
+    change: every call receives the files matching at that moment; the user's objects keep their DirectoryNodes (oracle only)."""
+    import json
+    import shutil
+    import subprocess
+    import common
+    rng = ctx.rng
+    worker = str(common.VERIF / "harness" / "impl" / "prov_inproc_worker.py")
+    for i in range(ctx.scale(4, 16)):
+        producer = i % 2 == 1
+        steps, names = [["write", "a.txt", 1]], ["a.txt"]
+        steps.append(["build"])
+        for _ in range(rng.randint(1, 3)):
+            for _ in range(rng.randint(1, 2)):
+                if producer and rng.random() < 0.5:
+                    steps.append(["write", "n.txt", rng.randint(2, 4)])
+                elif rng.random() < 0.7:
+                    nm = f"x{len(names)}.txt"
+                    names.append(nm)
+                    steps.append(["write", nm, rng.randint(1, 9)])
+                else:
+                    steps.append(["write", rng.choice(names), rng.randint(10, 99)])
+            steps.append(["build"])
+        _inproc_one(ctx, steps, producer, rng.randrange(1, 10**6))
+
+
+def _inproc_one(ctx, steps, producer, hashseed):
+    import json
+    import shutil
+    import subprocess
+    import common
+    worker = str(common.VERIF / "harness" / "impl" / "prov_inproc_worker.py")
+    if True:
+        root = common.scratch_dir("provin")
+        try:
+            env = dict(os.environ, PYTHONHASHSEED=str(hashseed), PYTHONDONTWRITEBYTECODE="1")
+            r = subprocess.run([common.PY, worker], input=json.dumps({"root": str(root), "steps": steps, "producer": producer}) + "\n",
+                               capture_output=True, text=True, env=env, cwd="/", timeout=300)
+        finally:
+            shutil.rmtree(root, ignore_errors=True)
+        if r.returncode != 0 or not r.stdout.strip():
+            raise common.InfraError(f"in-process worker failed: {r.stderr[-300:]}")
+        builds = json.loads(r.stdout.strip().splitlines()[-1])["builds"]
+        replay = {"layer": "prov-inproc", "steps": steps, "producer": producer}
+        ctx.case(["inproc", steps, producer], len(builds) >= 2, None)
+        ctx.dist["inproc_histories"] += 1
+        prev_files = None
+        for bi, b in enumerate(builds):
+            if b.get("raised") or b.get("exit") != 0:
+                ctx.violation(f"build: in-process build {bi} raised / exit {b.get('exit')!r} {b.get('raised')!r}", replay)
+                break
+            for c in b["calls"]:
+                if c["task"] == "consume" and c["got"] != c["seen"]:
+                    ctx.violation(f"resolve: in-process build {bi} (same task objects as in the builds before): task_consume received "
+                                  f"{c['got']} but the files matching at its start are {c['seen']}", replay)
+            ran = any(c["task"] == "consume" for c in b["calls"])
+            if prev_files is not None and set(b["files_now"]) - set(prev_files) and not ran:
+                ctx.violation(f"rerun: in-process build {bi}: new matching files {sorted(set(b['files_now']) - set(prev_files))} but task_consume "
+                              f"was not executed ({b['outcomes']})", replay)
+            if any(k != "DirectoryNode" for k in b["kinds"].values()):
+                ctx.violation(f"resolve: after in-process build {bi} the user's task objects no longer hold their DirectoryNode: {b['kinds']}", replay)
+            prev_files = b["files_now"]
+
+
 def run(ctx):
     ctx.rule = ("generated projects with tasks depending on / producing DirectoryNode patterns and @task(is_generator=True) generators (per-file copy "
                 "tasks and fixed tasks), built repeatedly through pytask.build under several PYTHONHASHSEEDs while producer counts grow / shrink, "
@@ -480,12 +546,18 @@ def run(ctx):
     hs = histories(ctx)
     recs = run_histories(ctx, hs)
     evaluate(ctx, hs, recs)
+    inproc_stream(ctx)
     # self-test of the oracle: the F11 witness must still be flagged (unless the defect has been repaired)
     ctx.extra["f11_witness_detected"] = "F11" in {v["finding"] for v in ctx.violations}
 
 
 def replay(ctx, obj):
     inp = obj["input"]
+    if inp.get("layer") == "prov-inproc":
+        _inproc_one(ctx, inp["steps"], inp["producer"], 1)
+        if ctx.violations:
+            return False, ctx.violations[0]["what"]
+        return True, "the re-used task objects receive the files matching at each build"
     hs = [inp["history"]] * 4
     recs = run_histories(ctx, hs, nseeds=4)
     evaluate(ctx, hs, recs)
